@@ -175,9 +175,130 @@ def handleIter (inp out : Sexp) (eS : Sexp) : CaseResult :=
     | _ => { agree := false, specOk := false, nontrivial := true, tags := ["impl-crash-or-undecodable"],
              detail := s!"impl={out}" }
 
+/-! ### `(c13seq …)`, `(c13instr …)`, `(c13text …)`: sequences, instruction-level and text routes -/
+
+def exprEqS (m : Expr CFloat) (i : Sexp) : Bool := encodeExpr m == i
+
+/-- differs from the model only in what `ArcIntern`'s coarse equality can merge (known finding) -/
+def onlyInternDiff (m : Expr CFloat) (iS : Sexp) : Bool :=
+  match decodeExpr iS with
+  | some i => !(exprEqS m iS) && m.beqWith leafEquiv i
+  | none => false
+
+def handleSeq (inp out : Sexp) : CaseResult :=
+  match inp with
+  | .list [.atom "c13seq", eS, ρS, μS, σ1S, σ2S] =>
+    match decodeExpr eS, decodeVarEnv ρS, decodeMemEnv μS, decodeAssoc decodeExpr σ1S, decodeAssoc decodeExpr σ2S with
+    | some e, some ρl, some μl, some σ1l, some σ2l =>
+      match out with
+      | .list [.atom "seq", twiceS, twiceValS, beforeS, afterS, eAgainS, simpS, simpSubstS, firstAgainS, firstS] =>
+        match decodeEvalOut twiceValS, decodeEvalOut beforeS, decodeEvalOut afterS, decodeExpr simpS, decodeExpr twiceS with
+        | some iTwiceVal, some iBefore, some iAfter, some iSimp, some iTwice =>
+          let ρ : VarEnv CFloat := lookupFn ρl
+          let μ : MemEnv CFloat := lookupFn μl
+          let σ1 : String → Option (Expr CFloat) := lookupFn σ1l
+          let σ2 : String → Option (Expr CFloat) := lookupFn σ2l
+          let mFirst := subst σ1 e
+          let mTwice := subst σ2 mFirst
+          let mTwiceVal := ofExcept (eval ρ μ mTwice)
+          let mEval := ofExcept (eval ρ μ e)
+          let mSimpSubst := subst σ1 iSimp      -- substitution into the implementation's simplified tree
+          let a1 := exprEqS mTwice twiceS
+          let a2 := mTwiceVal.cmp iTwiceVal > 0
+          let a3 := mEval.cmp iBefore > 0 && mEval.cmp iAfter > 0
+          let a4 := exprEqS e eAgainS
+          let a5 := exprEqS mSimpSubst simpSubstS
+          let a6 := exprEqS mFirst firstS && exprEqS mFirst firstAgainS
+          let agree := a1 && a2 && a3 && a4 && a5 && a6
+          let kf := !agree && a3 && a4 &&
+            (a1 || onlyInternDiff mTwice twiceS) && (a5 || onlyInternDiff mSimpSubst simpSubstS) &&
+            (a6 || (onlyInternDiff mFirst firstS && onlyInternDiff mFirst firstAgainS)) &&
+            (ofExcept (eval ρ μ iTwice)).cmp iTwiceVal > 0
+          -- spec on the implementation's outputs
+          let numeric (l : List (String × Expr CFloat)) := l.all fun (_, t) => match t with | .number _ => true | _ => false
+          let s1 := iBefore.same iAfter                         -- evaluation does not depend on the calls in between
+          let s2 := eAgainS == eS                               -- the expression itself is never changed
+          let s3 := firstS == firstAgainS                       -- substituting twice with the same map: same tree
+          let s4 := !(numeric σ1l && numeric σ2l) ||
+            (iTwice.vars == e.vars.filter (fun x => (σ1 x).isNone && (σ2 x).isNone) && iTwice.addrs == e.addrs)
+          let specOk := s1 && s2 && s3 && s4
+          { agree := agree, specOk := specOk, nontrivial := !e.vars.isEmpty,
+            tags := ["seq", if numeric σ1l && numeric σ2l then "seq-num" else "seq-expr"] ++
+              (if kf then ["kf:C13/interning-merges-signed-zero"] else []),
+            detail := s!"agree[twice={a1} twiceVal={a2} evals={a3} unchanged={a4} simpSubst={a5} first={a6}] " ++
+              s!"spec[stable-eval={s1} unchanged={s2} deterministic={s3} leftover={s4}] model twice={encodeExpr mTwice} " ++
+              s!"val={mTwiceVal.render} | impl={out}" }
+        | _, _, _, _, _ => { agree := false, specOk := false, nontrivial := true, tags := ["impl-crash-or-undecodable"], detail := s!"impl={out}" }
+      | _ => { agree := false, specOk := false, nontrivial := true, tags := ["impl-crash-or-undecodable"], detail := s!"impl={out}" }
+    | _, _, _, _, _ => .bad s!"undecodable input {inp}"
+  | _ => .bad s!"undecodable input {inp}"
+
+/-- sorted, duplicate-free (what a `HashSet<String>` is after the harness sorted it) -/
+def sortedNames (l : List String) : List String :=
+  let ins (acc : List String) (x : String) : List String :=
+    let rec go : List String → List String
+      | [] => [x]
+      | y :: ys => if x == y then y :: ys else if x < y then x :: y :: ys else y :: go ys
+    go acc
+  l.foldl ins []
+
+def handleInstr (inp out : Sexp) (e1S e2S : Sexp) : CaseResult :=
+  match decodeExpr e1S, decodeExpr e2S with
+  | some e1, some e2 =>
+    match out with
+    | .list (.atom "instr" :: items) =>
+      let namesS (l : List MemRef) : Sexp := .list ((sortedNames (l.map (·.name))).map .str)
+      let check (one both : List MemRef) : List String :=
+        items.filterMap fun it => match it with
+          | .list [.atom "single", .atom n, got] => if got == namesS one then none else some n
+          | .list [.atom "double", .atom n, got] => if got == namesS both then none else some n
+          | .list [.atom "wf_collect", got] => if got == refsS both then none else some "wf_collect"
+          | .list [.atom "wf_count", got] => if got == natS both.length then none else some "wf_count"
+          | .list [.atom "wf_for_each", got] => if got == refsS both then none else some "wf_for_each"
+          | .list [.atom "wf_next_for_each", got] => if got == refsS both then none else some "wf_next_for_each"
+          | _ => some "undecodable"
+      let mm := check (memoryReferences e1) (memoryReferences e1 ++ memoryReferences e2)
+      let sm := check e1.addrs (e1.addrs ++ e2.addrs)
+      { agree := mm.isEmpty && items.length == 14, specOk := sm.isEmpty && items.length == 14,
+        nontrivial := !e1.addrs.isEmpty || !e2.addrs.isEmpty,
+        tags := ["instr", s!"instr-refs{min (e1.addrs.length + e2.addrs.length) 6}"] ++ sm.map ("instr-miss-" ++ ·),
+        detail := s!"instruction-level routes differing from the model: {mm}; from the listing: {sm}; impl={out}" }
+    | _ => { agree := false, specOk := false, nontrivial := true, tags := ["impl-crash-or-undecodable"], detail := s!"impl={out}" }
+  | _, _ => .bad s!"undecodable input {inp}"
+
+/-- region names the API accepts but the text syntax reserves (data-type keywords): `MemoryReference::from_str`
+may reject their printed form -/
+def reservedRegionName (n : String) : Bool := ["BIT", "OCTET", "INTEGER", "REAL"].contains n
+
+def handleText (inp out : Sexp) (eS : Sexp) : CaseResult :=
+  match decodeExpr eS with
+  | none => .bad s!"undecodable input {inp}"
+  | some e =>
+    match out with
+    | .list [.atom "text", .list rounds, reparsed] =>
+      let refs := e.addrs
+      let roundOk := rounds.length == refs.length &&
+        (rounds.zip refs).all fun (got, r) => match got with
+          | .list [.atom "ok", back, .atom same] => back == encodeMemRef r && same == "true"
+          | .list [.atom "err", _] => reservedRegionName r.name
+          | _ => false
+      let reparseOk := match reparsed with
+        | .list [.atom "refs", got] => got == refsS refs
+        | .list [.atom "na", _] => true
+        | _ => false
+      let ok := roundOk && reparseOk
+      { agree := ok && memoryReferences e == refs, specOk := ok, nontrivial := !refs.isEmpty,
+        tags := ["text", match reparsed with | .list [.atom "refs", _] => "text-reparsed" | _ => "text-na"] ++
+          (if rounds.any (fun g => match g with | .list [.atom "err", _] => true | _ => false) then ["text-reserved-name"] else []),
+        detail := s!"round-trip ok={roundOk} reparse ok={reparseOk} listing={refsS refs} impl={out}" }
+    | _ => { agree := false, specOk := false, nontrivial := true, tags := ["impl-crash-or-undecodable"], detail := s!"impl={out}" }
+
 def handle (inp out : Sexp) : CaseResult :=
   match inp with
   | .list [.atom "c13iter", eS] => handleIter inp out eS
+  | .list (.atom "c13seq" :: _) => handleSeq inp out
+  | .list [.atom "c13instr", e1S, e2S] => handleInstr inp out e1S e2S
+  | .list [.atom "c13text", eS] => handleText inp out eS
   | .list [.atom "c13", eS, ρS, μS, σS] =>
     match decodeExpr eS, decodeVarEnv ρS, decodeMemEnv μS, decodeAssoc decodeExpr σS with
     | some e, some ρl, some μl, some σl =>
